@@ -19,6 +19,9 @@
 #include "msa_check.h"
 int kalign_arr_to_msa(char **input_sequences, int *len, int numseq, struct msa **multiple_aln);
 
+/* mode 4: the kind decision's arithmetic is C13; a stand-in keeps the life-cycle instance cheap */
+int vk_detect_alphabet(struct msa *msa) { msa->biotype = ALN_BIOTYPE_DNA; return OK; }
+
 VK_MAIN()
 {
         VK_INIT();
